@@ -106,6 +106,8 @@ def call(cfg, mod, x, m, train, seed, use_lens=False, extra=None):
     kw = dict(extra or {})
     if cfg['kind'] in ('vq',) and use_lens:
         kw['lens'] = m.sum(dim=-1)
+    elif cfg['kind'] in ('lfq', 'rlfq'):
+        kw['mask'] = m[:, 0].contiguous()
     else:
         kw['mask'] = m
     if cfg['kind'] == 'vq':
@@ -132,6 +134,12 @@ def correspond(ctx, scale):
                 b, n = rng.choice([(2, 4), (3, 3), (2, 6)])
                 x = torch.randn(b, n, cfg['dim'])
                 m = ragged_mask(rng, torch, b, n)
+                if cfg['kind'] in ('lfq', 'rlfq'):
+                    # the LFQ family takes PER-SAMPLE masks: whole samples are padding
+                    keep = [True] + [rng.random() < 0.5 for _ in range(b - 1)]
+                    if all(keep):
+                        keep[-1] = False
+                    m = torch.tensor(keep)[:, None].expand(b, n).contiguous()
                 if prefix_lens:
                     lens = m.sum(dim=-1).clamp(min=1)
                     m = torch.arange(n)[None, :] < lens[:, None]
